@@ -42,12 +42,7 @@ def gen_c11(r, n):
 
 
 def run(ctx):
-    ctx.translate(['SessionErrors.v'])
-    models_ok = ctx.build_models(cl.REQUIRES)
-    ctx.prove()
-    if ctx.tier == 'thorough':
-        ctx.coqchk()
-    if not ctx.build_harness() or not models_ok:
+    if not cl.prepare(ctx):
         return
     if ctx.replay and 'cases' in ctx.replay:
         cases = [cl.case_from_json(j) for j in ctx.replay['cases']]
